@@ -76,6 +76,21 @@ type Exec struct {
 	panicked  any
 	Trace     []string // optional event log
 	LogEvents bool
+	// KeyFn, if set, is evaluated at every scheduling point with a choice;
+	// Keys[i] identifies the complete state at Points[i] (for state pruning).
+	KeyFn func(e *Exec) [16]byte
+	Keys  [][16]byte
+	// OnResume, if set, is called whenever a thread is about to run its next
+	// atomic stretch (after every scheduling point, with or without a choice).
+	OnResume func(e *Exec, id int)
+	// OnObserve, if set, is told what a thread is about to observe: the name
+	// of the package-level variable it accesses next (kind "var") or the
+	// value a synchronisation operation returned (kind "sync").
+	OnObserve func(e *Exec, id int, kind string, name string, val uint64)
+	// Version counts operations that may have changed shared memory or the
+	// state of a synchronisation object (for caching state hashes).
+	Version int
+	ptrIDs  map[uintptr]uint64
 }
 
 var active *Exec
@@ -87,7 +102,12 @@ func Active() bool { return active != nil && active.cur != nil }
 // Run executes the bodies as threads under the given chooser and returns
 // when all have finished (or a deadlock was detected).
 func Run(bodies []func(), choose func(p PointInfo) int, logEvents bool) *Exec {
-	e := &Exec{Choose: choose, mainCh: make(chan struct{}), vars: map[string]*varState{}, Counts: map[string][2]int{}, LogEvents: logEvents}
+	return RunKeyed(bodies, choose, logEvents, nil, nil)
+}
+
+// RunKeyed is Run with a state-key function (see Exec.KeyFn).
+func RunKeyed(bodies []func(), choose func(p PointInfo) int, logEvents bool, keyFn func(e *Exec) [16]byte, onObserve func(e *Exec, id int, kind, name string, val uint64)) *Exec {
+	e := &Exec{KeyFn: keyFn, OnObserve: onObserve, Choose: choose, mainCh: make(chan struct{}), vars: map[string]*varState{}, Counts: map[string][2]int{}, LogEvents: logEvents}
 	if len(bodies) > MaxThreads-1 {
 		panic("vsched: too many threads")
 	}
@@ -172,16 +192,27 @@ func (e *Exec) dispatch(p PointInfo) {
 	}
 	choice := 0
 	if len(order) > 1 {
+		// the state key must describe the state BEFORE the choice is taken
+		var key [16]byte
+		if e.KeyFn != nil {
+			key = e.KeyFn(e)
+		}
 		choice = e.Choose(p)
 		if choice < 0 || choice >= len(order) {
 			panic(fmt.Sprintf("vsched: choice %d out of range (%d enabled) at point %d", choice, len(order), len(e.Points)))
 		}
 		e.Points = append(e.Points, p)
 		e.Choices = append(e.Choices, choice)
+		if e.KeyFn != nil {
+			e.Keys = append(e.Keys, key)
+		}
 	}
 	next := e.threads[order[choice]-1]
 	prev := e.cur
 	e.cur = next
+	if e.OnResume != nil {
+		e.OnResume(e, next.id)
+	}
 	if prev == next {
 		return
 	}
@@ -244,6 +275,7 @@ func Release(obj *VC) {
 		return
 	}
 	e.SyncOps++
+	e.Version++
 	obj.join(&e.cur.vc)
 	e.cur.vc[e.cur.id]++
 }
@@ -254,6 +286,7 @@ func Acquire(obj *VC) {
 		return
 	}
 	e.SyncOps++
+	e.Version++
 	e.cur.vc.join(obj)
 }
 
@@ -279,8 +312,12 @@ func Access(name string, write bool, site string) {
 	t := e.cur
 	if write {
 		t.lastRead = ""
+		e.Version++
 	} else {
 		t.lastRead = name
+	}
+	if e.OnObserve != nil {
+		e.OnObserve(e, t.id, "var", name, 0)
 	}
 	vs := e.vars[name]
 	if vs == nil {
@@ -311,6 +348,36 @@ func Access(name string, write bool, site string) {
 	}
 }
 
+// Observe reports the value a synchronisation operation returned to the
+// running thread (what it learns from shared state).
+func Observe(val uint64) {
+	if e := active; e != nil && e.cur != nil && e.OnObserve != nil {
+		e.OnObserve(e, e.cur.id, "sync", "", val)
+	}
+}
+
+// ObservePtr is Observe for pointers: nil is 0, other pointers get small
+// numbers in order of first appearance within the execution.
+func ObservePtr(p uintptr) {
+	e := active
+	if e == nil || e.cur == nil || e.OnObserve == nil {
+		return
+	}
+	if p == 0 {
+		e.OnObserve(e, e.cur.id, "sync", "", 0)
+		return
+	}
+	if e.ptrIDs == nil {
+		e.ptrIDs = map[uintptr]uint64{}
+	}
+	id, ok := e.ptrIDs[p]
+	if !ok {
+		id = uint64(len(e.ptrIDs) + 1)
+		e.ptrIDs[p] = id
+	}
+	e.OnObserve(e, e.cur.id, "sync", "", id)
+}
+
 // Fault records a synchronisation fault detected by the shim.
 func Fault(msg string) {
 	if e := active; e != nil && e.cur != nil {
@@ -337,6 +404,60 @@ func Enter(id int) {
 		e.Calls = append(e.Calls, make([]int, id+64-len(e.Calls))...)
 	}
 	e.Calls[id]++
+}
+
+// CoreState serialises the scheduler-visible state: per thread the number of
+// visible steps, done/blocked flags and vector clock; per variable the
+// access records that decide future race reports.
+func (e *Exec) CoreState() []byte {
+	var b []byte
+	put := func(x int) { b = append(b, byte(x), byte(x>>8), byte(x>>16), byte(x>>24)) }
+	running := 0
+	if e.cur != nil {
+		running = e.cur.id
+	}
+	put(running)
+	for _, t := range e.threads {
+		put(t.steps)
+		if t.done {
+			put(1)
+		} else {
+			put(0)
+		}
+		for _, c := range t.vc {
+			put(c)
+		}
+		b = append(b, []byte(t.lastRead)...)
+		b = append(b, 0)
+	}
+	names := make([]string, 0, len(e.vars))
+	for n := range e.vars {
+		names = append(names, n)
+	}
+	sort.Strings(names)
+	for _, n := range names {
+		vs := e.vars[n]
+		b = append(b, []byte(n)...)
+		if vs.lastWrite != nil {
+			put(vs.lastWrite.thread)
+			put(vs.lastWrite.clock)
+		} else {
+			put(-1)
+		}
+		ids := make([]int, 0, len(vs.reads))
+		for id := range vs.reads {
+			ids = append(ids, id)
+		}
+		sort.Ints(ids)
+		for _, id := range ids {
+			put(id)
+			put(vs.reads[id].clock)
+		}
+		put(-2)
+	}
+	put(len(e.Races))
+	put(len(e.Faults))
+	return b
 }
 
 // Steps returns the number of visible operations each thread executed.
